@@ -1,52 +1,109 @@
-//! C21 correspondence + oracle: the real `RevertibleMarket` over an in-memory `Market` account.
-//! Hook: `gmsol_store::verif::c21::revertible_market` (public wrapper of the crate-private
-//! constructor). All reads/writes go through the public `gmsol_model` traits, commit through
-//! `Revertible::commit` (the CPI event emission hits the default no-op syscall stub), abandon = drop.
+//! C21 correspondence + oracle: the real revertible wrappers over in-memory accounts:
+//! `RevertibleMarket`, `RevertibleLiquidityMarket` (deferred mint/burn), `RevertiblePosition`
+//! and `RevertibleVirtualInventory`. Hooks: `gmsol_store::verif::c21::*` (public wrappers of the
+//! crate-private constructors/accessors). Reads/writes go through the public `gmsol_model`
+//! traits, commit through `Revertible::commit` (the real `commit_to_storage`), abandon = drop.
+//! CPIs (`invoke_signed`) are intercepted by a syscall stub that logs them, counts the events and
+//! plays the token program's `MintTo`/`Burn` on the mint account's supply.
 //!
-//! Requests: `rbuf new <sid> <now>` · `begin|commit|abandon <sid>` · `setrev <sid> <rev>` ·
-//! `rpool <sid> <k>` · `rclock <sid> <i> <now>` · `rother <sid>` · `wpool <sid> <k> <L|S> <d>` ·
-//! `wclock <sid> <i> <now>` · `wffps <sid> <v>` · `wbal <sid> <L|S> <in|out> <amt>`.
+//! Requests (`rbuf <op> <sid> …`): `new <now>` · `begin|lbegin|pbegin` · `commit|abandon` ·
+//! `setrev <rev>` · `rpool <k>` · `rclock <i> <now>` · `rother` · `wpool <k> <L|S> <d>` ·
+//! `wclock <i> <now>` · `wffps <v>` · `wbal <L|S> <in|out> <amt>` · liquidity: `mint <a>` ·
+//! `burn <a>` · `supply` · position: `pread` · `pwrite <i> <v>` · `ptouch <inc|dec> <slot> <now>` ·
+//! virtual inventory: `vbegin|vcommit|vabandon` · `vread` · `vwrite <L|S> <d>` · `vsetrev <rev>`.
 use anchor_lang::prelude::*;
+use anchor_lang::solana_program::program_stubs::{set_syscall_stubs, SyscallStubs};
 use anchor_lang::Discriminator;
+use anchor_spl::token::Mint;
 use gmsol_model::{
-    Balance, Bank, BaseMarket, BaseMarketMut, BorrowingFeeMarket, BorrowingFeeMarketMut, ClockKind, PerpMarket,
-    PerpMarketMut, Pool as _, PoolKind, PositionImpactMarket, PositionImpactMarketMut, SwapMarketMut,
+    Balance, Bank, BaseMarket, BaseMarketMut, BorrowingFeeMarket, BorrowingFeeMarketMut, ClockKind, LiquidityMarket,
+    LiquidityMarketMut, PerpMarket, PerpMarketMut, Pool as _, PoolKind, Position as _, PositionImpactMarket,
+    PositionImpactMarketMut, PositionMut, PositionState as _, PositionStateMut, SwapMarketMut,
 };
-use gmsol_store::states::market::revertible::{Revertible, RevertibleMarket, Revision};
 use gmsol_store::states::market::pool::Pool;
-use gmsol_store::states::Market;
+use gmsol_store::states::market::revertible::revertible_virtual_inventory::RevertibleVirtualInventory;
+use gmsol_store::states::market::revertible::{Revertible, RevertibleLiquidityMarket, RevertibleMarket, RevertiblePosition, Revision};
+use gmsol_store::states::market::virtual_inventory::VirtualInventory;
+use gmsol_store::states::{Market, Position, Store};
+use gmsol_utils::order::PositionKind;
+use gmsol_store::verif::c21 as hook;
 use hcommon::*;
 use std::collections::HashMap;
+use std::sync::atomic::Ordering;
+use std::sync::Mutex;
 
 type RM = RevertibleMarket<'static, 'static>;
+type RLM = RevertibleLiquidityMarket<'static, 'static>;
+type RP = RevertiblePosition<'static, 'static>;
+type RVI = RevertibleVirtualInventory<'static>;
+
+// ---------------------------------------------------------------- syscall stubs
+
+static TOKEN_CPIS: Mutex<Vec<(u8, u64)>> = Mutex::new(Vec::new()); // (7 = MintTo | 8 = Burn, amount)
+static EVENT_CPIS: Mutex<u64> = Mutex::new(0);
+const MINT_KEY: u8 = 21;
+
+struct Stubs;
+impl SyscallStubs for Stubs {
+    fn sol_get_clock_sysvar(&self, var_addr: *mut u8) -> u64 {
+        let clock = anchor_lang::solana_program::clock::Clock {
+            slot: h_store::SLOT.load(Ordering::SeqCst), epoch_start_timestamp: 0, epoch: 0, leader_schedule_epoch: 0,
+            unix_timestamp: h_store::NOW.load(Ordering::SeqCst),
+        };
+        unsafe { std::ptr::write_unaligned(var_addr as *mut anchor_lang::solana_program::clock::Clock, clock) };
+        0
+    }
+    fn sol_get_last_restart_slot(&self, var_addr: *mut u8) -> u64 {
+        unsafe { std::ptr::write_unaligned(var_addr as *mut u64, 0) };
+        0
+    }
+    fn sol_log(&self, _message: &str) {}
+    fn sol_invoke_signed(
+        &self,
+        ix: &anchor_lang::solana_program::instruction::Instruction,
+        infos: &[AccountInfo],
+        _seeds: &[&[&[u8]]],
+    ) -> anchor_lang::solana_program::entrypoint::ProgramResult {
+        if ix.program_id == anchor_spl::token::ID {
+            let tag = ix.data[0];
+            let amount = u64::from_le_bytes(ix.data[1..9].try_into().unwrap());
+            TOKEN_CPIS.lock().unwrap().push((tag, amount));
+            // play the token program on the mint's supply (offset 36 of the packed Mint)
+            for ai in infos {
+                if *ai.key == key(MINT_KEY) {
+                    let mut d = ai.try_borrow_mut_data()?;
+                    let s = u64::from_le_bytes(d[36..44].try_into().unwrap());
+                    let n = match tag { 7 => s.checked_add(amount), 8 => s.checked_sub(amount), _ => Some(s) };
+                    let Some(n) = n else { return Err(anchor_lang::solana_program::program_error::ProgramError::ArithmeticOverflow) };
+                    d[36..44].copy_from_slice(&n.to_le_bytes());
+                }
+            }
+        } else {
+            *EVENT_CPIS.lock().unwrap() += 1;
+        }
+        Ok(())
+    }
+}
+
+// ---------------------------------------------------------------- accounts
 
 fn leak<T>(x: T) -> &'static mut T { Box::leak(Box::new(x)) }
-
 fn key(tag: u8) -> Pubkey { Pubkey::new_from_array([tag; 32]) }
 const LONG: u8 = 11;
 const SHORT: u8 = 12;
+const MARKET_TOKEN: u8 = 3;
+const STORE: u8 = 2;
 
-struct World {
-    ai: &'static AccountInfo<'static>,
-    loader: &'static AccountLoader<'static, Market>,
-    ea: &'static AccountInfo<'static>,
-    open: Option<RM>,
-    rev_off: usize,
-    // the property's own bookkeeping: a transactional map
-    committed: Vec<Vec<i128>>,
-    overlay: HashMap<usize, Vec<i128>>,
-}
-
-fn new_account(owner: Pubkey, size: usize, disc: &[u8]) -> &'static AccountInfo<'static> {
-    // account data must start at an address ≡ 8 (mod 16) so that the zero-copy struct is aligned
+/// a leaked account whose data starts at an address ≡ 8 (mod 16) (zero-copy alignment);
+/// returns the AccountInfo and a raw pointer to its data for read-only peeking while borrowed
+fn new_account(k: Pubkey, owner: Pubkey, size: usize, disc: &[u8]) -> (&'static AccountInfo<'static>, *const u8, usize) {
     let words = (size + 8 + 15) / 16 + 1;
     let buf: &'static mut [u128] = Box::leak(vec![0u128; words].into_boxed_slice());
-    let bytes: &'static mut [u8] = unsafe { std::slice::from_raw_parts_mut((buf.as_mut_ptr() as *mut u8).add(8), size + 8) };
-    bytes[..8].copy_from_slice(disc);
-    let k = leak(key(1));
-    let o = leak(owner);
-    let lamports = leak(1_000_000u64);
-    leak(AccountInfo::new(k, false, true, lamports, bytes, o, false, 0))
+    let ptr = unsafe { (buf.as_mut_ptr() as *mut u8).add(8) };
+    let bytes: &'static mut [u8] = unsafe { std::slice::from_raw_parts_mut(ptr, size + 8) };
+    bytes[..disc.len()].copy_from_slice(disc);
+    let ai = leak(AccountInfo::new(leak(k), false, true, leak(1_000_000u64), bytes, leak(owner), false, 0));
+    (ai, ptr as *const u8, size + 8)
 }
 
 fn pool_ref<'a>(rm: &'a RM, k: PoolKind) -> gmsol_model::Result<&'a Pool> {
@@ -108,47 +165,149 @@ fn storage(m: &Market) -> Vec<Vec<i128>> {
         m.clock(ClockKind::Funding).unwrap() as i128,
     ]);
     let o = m.state();
-    v.push(vec![o.long_token_balance_raw() as i128, o.short_token_balance_raw() as i128, o.funding_factor_per_second()]);
+    v.push(vec![o.long_token_balance_raw() as i128, o.short_token_balance_raw() as i128, o.funding_factor_per_second(), o.trade_count() as i128]);
     v
 }
 
-fn show_cells(c: &[Vec<i128>]) -> String {
-    c.iter().map(|v| v.iter().map(|x| x.to_string()).collect::<Vec<_>>().join(",")).collect::<Vec<_>>().join(";")
+fn pos_payload(p: &Position) -> Vec<i128> {
+    let s = &p.state;
+    vec![s.trade_id as i128, s.increased_at as i128, s.updated_at_slot as i128, s.decreased_at as i128,
+         s.size_in_tokens as i128, s.collateral_amount as i128, s.size_in_usd as i128, s.borrowing_factor as i128,
+         s.funding_fee_amount_per_size as i128, s.long_token_claimable_funding_amount_per_size as i128,
+         s.short_token_claimable_funding_amount_per_size as i128]
+}
+
+fn csv(v: &[i128]) -> String { v.iter().map(|x| x.to_string()).collect::<Vec<_>>().join(",") }
+fn show_cells(c: &[Vec<i128>]) -> String { c.iter().map(|v| csv(v)).collect::<Vec<_>>().join(";") }
+
+enum Open { Market(RM), Liq(RLM), Pos(RP) }
+
+impl Open {
+    fn rm(&self) -> &RM { match self { Open::Market(m) => m, Open::Liq(l) => hook::liquidity_market_base(l), Open::Pos(p) => p.market() } }
+    fn rm_mut(&mut self) -> &mut RM { match self { Open::Market(m) => m, Open::Liq(l) => hook::liquidity_market_base_mut(l), Open::Pos(p) => p.market_mut() } }
+}
+
+struct World {
+    ai: &'static AccountInfo<'static>,
+    loader: &'static AccountLoader<'static, Market>,
+    ea: &'static AccountInfo<'static>,
+    open: Option<Open>,
+    rev_off: usize,
+    // liquidity market surroundings
+    mint_ai: &'static AccountInfo<'static>,
+    token_program: &'static AccountInfo<'static>,
+    store_loader: &'static AccountLoader<'static, Store>,
+    receiver: &'static AccountInfo<'static>,
+    vault: &'static AccountInfo<'static>,
+    // position
+    pos_loader: &'static AccountLoader<'static, Position>,
+    pos_ptr: (*const u8, usize),
+    // virtual inventory
+    vi_ai: &'static AccountInfo<'static>,
+    vi_loader: &'static AccountLoader<'static, VirtualInventory>,
+    vi_open: Option<RVI>,
+    vi_rev_off: usize,
+    // ---- the property's own bookkeeping: transactional maps
+    committed: Vec<Vec<i128>>,
+    overlay: HashMap<usize, Vec<i128>>,
+    supply: u64,
+    pend_mint: u64,
+    pend_burn: u64,
+    pos_committed: Vec<i128>,
+    pos_local: Vec<i128>,
+    vi_committed: Vec<i128>,
+    vi_overlay: Option<Vec<i128>>,
+}
+
+fn diff_offset(before: &[u8], after: &[u8], what: &str) -> usize {
+    let diff: Vec<usize> = (0..before.len()).filter(|i| before[*i] != after[*i]).collect();
+    assert_eq!(diff.len(), 1, "{what}: begin+abandon must change the counter only");
+    diff[0]
 }
 
 impl World {
     fn new(now: i64) -> World {
         h_store::set_now(now);
-        let ai = new_account(gmsol_store::ID, std::mem::size_of::<Market>(), Market::DISCRIMINATOR);
+        let (ai, _, _) = new_account(key(1), gmsol_store::ID, std::mem::size_of::<Market>(), Market::DISCRIMINATOR);
         let loader: &'static AccountLoader<'static, Market> = leak(AccountLoader::try_from(ai).expect("loader"));
-        loader.load_mut().expect("load_mut").init(255, key(2), "m", key(3), key(4), key(LONG), key(SHORT), true).expect("init");
-        let ea = new_account(gmsol_store::ID, 0, &[0u8; 8]);
+        loader.load_mut().expect("load_mut").init(255, key(STORE), "m", key(MARKET_TOKEN), key(4), key(LONG), key(SHORT), true).expect("init");
+        let (ea, _, _) = new_account(key(5), gmsol_store::ID, 0, &[0u8; 8]);
         // locate the buffer's revision counter: begin + abandon changes nothing else in the account
         let before: Vec<u8> = ai.data.borrow().to_vec();
-        let rm = gmsol_store::verif::c21::revertible_market(loader, ea, 255).expect("rm");
+        let rm = hook::revertible_market(loader, ea, 255).expect("rm");
         assert_eq!(rm.rev(), 2);
         drop(rm);
         let after: Vec<u8> = ai.data.borrow().to_vec();
-        let diff: Vec<usize> = (0..before.len()).filter(|i| before[*i] != after[*i]).collect();
-        assert_eq!(diff.len(), 1, "begin+abandon must change the counter only");
-        let rev_off = diff[0];
+        let rev_off = diff_offset(&before, &after, "market");
         assert_eq!(u64::from_le_bytes(after[rev_off..rev_off + 8].try_into().unwrap()), 2);
-        // put the counter back to its value after `init`
         ai.data.borrow_mut()[rev_off..rev_off + 8].copy_from_slice(&1u64.to_le_bytes());
         let committed = storage(&loader.load().unwrap());
-        World { ai, loader, ea, open: None, rev_off, committed, overlay: HashMap::new() }
+
+        // mint (packed spl Mint: authority COption(36) | supply u64 | decimals | initialized | freeze COption(36))
+        let supply: u64 = 1_000_000;
+        let (mint_ai, _, _) = new_account(key(MINT_KEY), anchor_spl::token::ID, 82 - 8, &[]);
+        {
+            let mut d = mint_ai.data.borrow_mut();
+            d[0..4].copy_from_slice(&1u32.to_le_bytes());
+            d[4..36].copy_from_slice(&key(STORE).to_bytes());
+            d[36..44].copy_from_slice(&supply.to_le_bytes());
+            d[44] = 6; d[45] = 1;
+        }
+        let (token_program, _, _) = new_account(anchor_spl::token::ID, key(0), 0, &[0u8; 8]);
+        let (store_ai, _, _) = new_account(key(STORE), gmsol_store::ID, std::mem::size_of::<Store>(), Store::DISCRIMINATOR);
+        let store_loader: &'static AccountLoader<'static, Store> = leak(AccountLoader::try_from(store_ai).expect("store loader"));
+        let (receiver, _, _) = new_account(key(22), anchor_spl::token::ID, 165 - 8, &[]);
+        let (vault, _, _) = new_account(key(23), anchor_spl::token::ID, 165 - 8, &[]);
+
+        // position
+        let (pos_ai, pos_ptr, pos_len) = new_account(key(31), gmsol_store::ID, std::mem::size_of::<Position>(), Position::DISCRIMINATOR);
+        let pos_loader: &'static AccountLoader<'static, Position> = leak(AccountLoader::try_from(pos_ai).expect("pos loader"));
+        pos_loader.load_mut().unwrap().try_init(PositionKind::Long, 255, key(STORE), &key(32), &key(MARKET_TOKEN), &key(LONG)).expect("position init");
+        let pos_committed = pos_payload(&pos_loader.load().unwrap());
+
+        // virtual inventory (a zeroed account is a valid one; `init` only sets metadata)
+        let (vi_ai, _, _) = new_account(key(41), gmsol_store::ID, std::mem::size_of::<VirtualInventory>(), VirtualInventory::DISCRIMINATOR);
+        let vi_loader: &'static AccountLoader<'static, VirtualInventory> = leak(AccountLoader::try_from(vi_ai).expect("vi loader"));
+        let before: Vec<u8> = vi_ai.data.borrow().to_vec();
+        drop(hook::revertible_virtual_inventory(vi_loader).expect("rvi"));
+        let after: Vec<u8> = vi_ai.data.borrow().to_vec();
+        let vi_rev_off = diff_offset(&before, &after, "virtual inventory");
+        assert_eq!(u64::from_le_bytes(after[vi_rev_off..vi_rev_off + 8].try_into().unwrap()), 1);
+        vi_ai.data.borrow_mut()[vi_rev_off..vi_rev_off + 8].copy_from_slice(&0u64.to_le_bytes());
+
+        TOKEN_CPIS.lock().unwrap().clear();
+        *EVENT_CPIS.lock().unwrap() = 0;
+        World {
+            ai, loader, ea, open: None, rev_off, mint_ai, token_program, store_loader, receiver, vault,
+            pos_loader, pos_ptr: (pos_ptr, pos_len), vi_ai, vi_loader, vi_open: None, vi_rev_off,
+            committed, overlay: HashMap::new(), supply, pend_mint: 0, pend_burn: 0,
+            pos_local: pos_committed.clone(), pos_committed, vi_committed: vec![0, 0], vi_overlay: None,
+        }
     }
     fn rev(&self) -> u64 {
         match &self.open {
-            Some(rm) => rm.rev(),
+            Some(o) => o.rm().rev(),
             None => u64::from_le_bytes(self.ai.data.borrow()[self.rev_off..self.rev_off + 8].try_into().unwrap()),
         }
     }
     fn stored(&self) -> Vec<Vec<i128>> {
-        match &self.open { Some(rm) => storage(rm.as_ref()), None => storage(&self.loader.load().unwrap()) }
+        match &self.open { Some(o) => storage(o.rm().as_ref()), None => storage(&self.loader.load().unwrap()) }
     }
+    fn mint_supply(&self) -> u64 { u64::from_le_bytes(self.mint_ai.data.borrow()[36..44].try_into().unwrap()) }
+    fn pos_stored(&self) -> Vec<i128> {
+        // peek at the account bytes even while the RevertiblePosition holds its RefMut
+        let bytes = unsafe { std::slice::from_raw_parts(self.pos_ptr.0, self.pos_ptr.1) };
+        pos_payload(bytemuck::from_bytes::<Position>(&bytes[8..]))
+    }
+    fn vi_rev(&self) -> u64 { u64::from_le_bytes(self.vi_ai.data.borrow()[self.vi_rev_off..self.vi_rev_off + 8].try_into().unwrap()) }
+    fn vi_stored(&self) -> Vec<i128> {
+        let p = hook::virtual_inventory_stored_pool(&self.vi_loader.load().unwrap());
+        vec![p.long_amount().unwrap() as i128, p.short_amount().unwrap() as i128]
+    }
+    fn mode(&self) -> u8 { match &self.open { None => 0, Some(Open::Market(_)) => 1, Some(Open::Liq(_)) => 2, Some(Open::Pos(_)) => 3 } }
     fn digest(&self) -> String {
-        format!("rev={} open={} [{}]", self.rev(), self.open.is_some() as u8, show_cells(&self.stored()))
+        format!("rev={} open={} [{}] supply={} pos={} vi={}:{}:{}", self.rev(), self.mode(), show_cells(&self.stored()),
+            self.mint_supply(), csv(&self.pos_stored()), self.vi_rev(), self.vi_open.is_some() as u8, csv(&self.vi_stored()))
     }
     /// what the transactional map says a read of cell k returns
     fn expect_read(&self, k: usize) -> Vec<i128> { self.overlay.get(&k).cloned().unwrap_or_else(|| self.committed[k].clone()) }
@@ -160,6 +319,10 @@ fn u128_ok(x: i128, d: i128) -> Option<i128> {
     // pool amounts are u128; the generator keeps them far below 2^127 so that i128 holds them
     let n = num_bigint::BigInt::from(x) + num_bigint::BigInt::from(d);
     if n >= num_bigint::BigInt::from(0) && n < (num_bigint::BigInt::from(1) << 128) { Some(x + d) } else { None }
+}
+
+fn show_cpis(c: &[(u8, u64)]) -> String {
+    if c.is_empty() { "-".into() } else { c.iter().map(|(t, a)| format!("{}{a}", match t { 7 => "M", 8 => "B", _ => "?" })).collect::<Vec<_>>().join(",") }
 }
 
 impl Harness {
@@ -176,31 +339,62 @@ impl Harness {
             return (format!("ok | {d}"), None, false);
         }
         let Some(w) = self.worlds.get_mut(&sid) else { return bad() };
+        TOKEN_CPIS.lock().unwrap().clear();
+        *EVENT_CPIS.lock().unwrap() = 0;
         let mut fail: Option<String> = None;
         let mut nt = false;
+        let mut expect_cpis: Vec<(u8, u64)> = vec![];
+        let mut expect_events = 0u64;
         let head: String = match (t[1], t.len() - 3) {
-            ("begin", 0) => {
+            ("begin", 0) | ("lbegin", 0) | ("pbegin", 0) => {
                 if w.open.is_some() { return bad(); }
                 let (loader, ea) = (w.loader, w.ea);
-                match std::panic::catch_unwind(std::panic::AssertUnwindSafe(|| gmsol_store::verif::c21::revertible_market(loader, ea, 255))) {
-                    Ok(Ok(rm)) => { let r = rm.rev(); w.open = Some(rm); w.overlay.clear(); nt = true; format!("ok {r}") }
+                match std::panic::catch_unwind(std::panic::AssertUnwindSafe(|| hook::revertible_market(loader, ea, 255))) {
+                    Ok(Ok(rm)) => {
+                        let r = rm.rev();
+                        let o = match t[1] {
+                            "begin" => Open::Market(rm),
+                            "lbegin" => {
+                                // a fresh `Account<Mint>` snapshot of the mint, as an instruction would get
+                                let mint: &'static Account<'static, Mint> = leak(Account::try_from(w.mint_ai).expect("mint account"));
+                                w.pend_mint = 0; w.pend_burn = 0;
+                                Open::Liq(hook::revertible_liquidity_market(rm, mint, w.token_program, w.store_loader, w.receiver, w.vault).expect("rlm"))
+                            }
+                            _ => {
+                                w.pos_local = w.pos_committed.clone();
+                                Open::Pos(hook::revertible_position(rm, w.pos_loader, false).expect("rp"))
+                            }
+                        };
+                        w.open = Some(o); w.overlay.clear(); nt = true;
+                        format!("ok {r}")
+                    }
                     Ok(Err(_)) => "err".into(),
                     Err(_) => "panic".into(),
                 }
             }
             ("commit", 0) => {
-                let Some(rm) = w.open.take() else { return bad() };
-                rm.commit();
+                let Some(o) = w.open.take() else { return bad() };
+                match o {
+                    Open::Market(rm) => rm.commit(),
+                    Open::Liq(l) => {
+                        if w.pend_mint != 0 { expect_cpis.push((7, w.pend_mint)); }
+                        if w.pend_burn != 0 { expect_cpis.push((8, w.pend_burn)); }
+                        w.supply = w.supply + w.pend_mint - w.pend_burn;
+                        l.commit();
+                    }
+                    Open::Pos(p) => { p.commit(); w.pos_committed = w.pos_local.clone(); }
+                }
+                expect_events = 1;
                 // the property: storage now reflects exactly this operation's writes
                 for (k, v) in w.overlay.drain() { w.committed[k] = v; }
                 nt = true;
-                "ok".into()
+                format!("ok cpis={}", show_cpis(&TOKEN_CPIS.lock().unwrap()))
             }
             ("abandon", 0) => {
-                let Some(rm) = w.open.take() else { return bad() };
-                drop(rm);
+                let Some(o) = w.open.take() else { return bad() };
+                drop(o);
                 w.overlay.clear();
-                "ok".into()
+                format!("ok cpis={}", show_cpis(&TOKEN_CPIS.lock().unwrap()))
             }
             ("setrev", 1) => {
                 let Some(v) = t[3].parse::<u64>().ok() else { return bad() };
@@ -210,8 +404,8 @@ impl Harness {
             }
             ("rpool", 1) => {
                 let Some(k) = t[3].parse::<u8>().ok().filter(|k| *k < 16) else { return bad() };
-                let Some(rm) = w.open.as_ref() else { return bad() };
-                let p = pool_ref(rm, PoolKind::try_from(k).unwrap()).expect("pool");
+                let Some(o) = w.open.as_ref() else { return bad() };
+                let p = pool_ref(o.rm(), PoolKind::try_from(k).unwrap()).expect("pool");
                 let got = vec![p.long_amount().unwrap() as i128, p.short_amount().unwrap() as i128];
                 if got != w.expect_read(k as usize) { fail = Some(format!("read of pool {k} returned {:?}, the transactional map has {:?}", got, w.expect_read(k as usize))); }
                 format!("ok {} {}", got[0], got[1])
@@ -219,8 +413,9 @@ impl Harness {
             ("rclock", 2) => {
                 // only two clocks have a read-only accessor on RevertibleMarket
                 let (Some(i), Some(now)) = (t[3].parse::<usize>().ok().filter(|i| *i < 2), t[4].parse::<i64>().ok()) else { return bad() };
-                let Some(rm) = w.open.as_ref() else { return bad() };
+                let Some(o) = w.open.as_ref() else { return bad() };
                 h_store::set_now(now);
+                let rm = o.rm();
                 let got = if i == 0 { rm.passed_in_seconds_for_position_impact_distribution() } else { rm.passed_in_seconds_for_borrowing() };
                 let want = (now as i128 - w.expect_read(16)[i]).max(0);
                 match got {
@@ -229,17 +424,18 @@ impl Harness {
                 }
             }
             ("rother", 0) => {
-                let Some(rm) = w.open.as_ref() else { return bad() };
+                let Some(o) = w.open.as_ref() else { return bad() };
+                let rm = o.rm();
                 let got = vec![rm.balance(&key(LONG)).unwrap() as i128, rm.balance(&key(SHORT)).unwrap() as i128, *rm.funding_factor_per_second()];
-                if got != w.expect_read(17) { fail = Some(format!("read of other state returned {:?}, the transactional map has {:?}", got, w.expect_read(17))); }
+                if got[..] != w.expect_read(17)[..3] { fail = Some(format!("read of other state returned {:?}, the transactional map has {:?}", got, w.expect_read(17))); }
                 format!("ok {} {} {}", got[0], got[1], got[2])
             }
             ("wpool", 3) => {
                 let (Some(k), Some(d)) = (t[3].parse::<u8>().ok().filter(|k| *k < 16), t[5].parse::<i128>().ok()) else { return bad() };
                 let side = match t[4] { "L" => 0usize, "S" => 1, _ => return bad() };
                 let mut cur = w.expect_read(k as usize);
-                let Some(rm) = w.open.as_mut() else { return bad() };
-                let p = pool_mut(rm, PoolKind::try_from(k).unwrap()).expect("pool_mut");
+                let Some(o) = w.open.as_mut() else { return bad() };
+                let p = pool_mut(o.rm_mut(), PoolKind::try_from(k).unwrap()).expect("pool_mut");
                 let r = if side == 0 { p.apply_delta_to_long_amount(&d) } else { p.apply_delta_to_short_amount(&d) };
                 let exp = u128_ok(cur[side], d);
                 if exp.is_some() != r.is_ok() { fail = Some(format!("pool write outcome {:?} but exact arithmetic says {:?}", r.is_ok(), exp)); }
@@ -250,8 +446,9 @@ impl Harness {
             ("wclock", 2) => {
                 let (Some(i), Some(now)) = (t[3].parse::<usize>().ok().filter(|i| *i < 3), t[4].parse::<i64>().ok()) else { return bad() };
                 let mut cur = w.expect_read(16);
-                let Some(rm) = w.open.as_mut() else { return bad() };
+                let Some(o) = w.open.as_mut() else { return bad() };
                 h_store::set_now(now);
+                let rm = o.rm_mut();
                 let r = match i { 0 => rm.just_passed_in_seconds_for_position_impact_distribution(), 1 => rm.just_passed_in_seconds_for_borrowing(), _ => rm.just_passed_in_seconds_for_funding() };
                 let want = (now as i128 - cur[i]).max(0);
                 if want > 0 { cur[i] = now as i128; nt = true; }
@@ -261,8 +458,8 @@ impl Harness {
             ("wffps", 1) => {
                 let Some(v) = t[3].parse::<i128>().ok() else { return bad() };
                 let mut cur = w.expect_read(17);
-                let Some(rm) = w.open.as_mut() else { return bad() };
-                *rm.funding_factor_per_second_mut() = v;
+                let Some(o) = w.open.as_mut() else { return bad() };
+                *o.rm_mut().funding_factor_per_second_mut() = v;
                 cur[2] = v; nt = true;
                 w.overlay.insert(17, cur);
                 "ok".into()
@@ -272,7 +469,8 @@ impl Harness {
                 let side = match t[3] { "L" => 0usize, "S" => 1, _ => return bad() };
                 let token = key(if side == 0 { LONG } else { SHORT });
                 let mut cur = w.expect_read(17);
-                let Some(rm) = w.open.as_mut() else { return bad() };
+                let Some(o) = w.open.as_mut() else { return bad() };
+                let rm = o.rm_mut();
                 let (r, exp) = match t[4] {
                     "in" => (rm.record_transferred_in_by_token(&token, &amt), Some(cur[side] + amt as i128).filter(|n| *n <= u64::MAX as i128)),
                     "out" => (rm.record_transferred_out_by_token(&token, &amt), Some(cur[side] - amt as i128).filter(|n| *n >= 0)),
@@ -283,14 +481,140 @@ impl Harness {
                 w.overlay.insert(17, cur);
                 if r.is_ok() { "ok".into() } else { "err".into() }
             }
+            // ---- liquidity market: deferred mint / burn
+            ("mint", 1) | ("burn", 1) => {
+                let Some(a) = t[3].parse::<u128>().ok() else { return bad() };
+                let Some(Open::Liq(l)) = w.open.as_mut() else { return bad() };
+                let is_mint = t[1] == "mint";
+                let r = if is_mint { l.mint(&a) } else { l.burn(&a) };
+                // exact arithmetic: what the deferred request may do
+                let exp: Option<u64> = u64::try_from(a).ok().and_then(|a| {
+                    if is_mint { w.pend_mint.checked_add(a).filter(|t| w.supply.checked_add(*t).is_some()) }
+                    else { w.pend_burn.checked_add(a).filter(|t| *t <= w.supply) }
+                });
+                if exp.is_some() != r.is_ok() { fail = Some(format!("{} outcome {:?} but exact arithmetic says {:?}", t[1], r.is_ok(), exp)); }
+                if let Some(n) = exp { if is_mint { w.pend_mint = n } else { w.pend_burn = n }; nt = a != 0; }
+                if r.is_ok() { "ok".into() } else { "err".into() }
+            }
+            ("supply", 0) => {
+                let Some(Open::Liq(l)) = w.open.as_ref() else { return bad() };
+                let got = l.total_supply();
+                let want = w.supply as u128 + w.pend_mint as u128 - w.pend_burn as u128;
+                if got != want { fail = Some(format!("total_supply inside the operation is {got}, expected {want}")); }
+                format!("ok {got}")
+            }
+            // ---- position
+            ("pread", 0) => {
+                let Some(Open::Pos(p)) = w.open.as_ref() else { return bad() };
+                let got: Vec<i128> = vec![*p.size_in_tokens() as i128, *p.collateral_amount() as i128, *p.size_in_usd() as i128,
+                    *p.borrowing_factor() as i128, *p.funding_fee_amount_per_size() as i128,
+                    *p.claimable_funding_fee_amount_per_size(true) as i128, *p.claimable_funding_fee_amount_per_size(false) as i128];
+                if got[..] != w.pos_local[4..] { fail = Some(format!("position read {:?}, the private copy should be {:?}", got, &w.pos_local[4..])); }
+                format!("ok {}", got.iter().map(|x| x.to_string()).collect::<Vec<_>>().join(" "))
+            }
+            ("pwrite", 2) => {
+                let (Some(i), Some(v)) = (t[3].parse::<usize>().ok().filter(|i| (4..=10).contains(i)), t[4].parse::<u128>().ok().filter(|v| *v < (1u128 << 126))) else { return bad() };
+                let Some(Open::Pos(p)) = w.open.as_mut() else { return bad() };
+                match i {
+                    4 => *p.size_in_tokens_mut() = v, 5 => *p.collateral_amount_mut() = v, 6 => *p.size_in_usd_mut() = v,
+                    7 => *p.borrowing_factor_mut() = v, 8 => *p.funding_fee_amount_per_size_mut() = v,
+                    9 => *p.claimable_funding_fee_amount_per_size_mut(true) = v, _ => *p.claimable_funding_fee_amount_per_size_mut(false) = v,
+                }
+                w.pos_local[i] = v as i128; nt = true;
+                "ok".into()
+            }
+            ("ptouch", 3) => {
+                let (Some(slot), Some(now)) = (t[4].parse::<u64>().ok(), t[5].parse::<i64>().ok()) else { return bad() };
+                let inc = match t[3] { "inc" => true, "dec" => false, _ => return bad() };
+                let mut other = w.expect_read(17);
+                let stored_tc = w.committed[17][3];
+                let Some(Open::Pos(p)) = w.open.as_mut() else { return bad() };
+                h_store::set_slot(slot); h_store::set_now(now);
+                let r = if inc { p.on_increased() } else { p.on_decreased() };
+                if r.is_err() { fail = Some("on_increased/on_decreased failed".into()); }
+                // next_trade_id is STORED trade count + 1, written to the buffered other state
+                other[3] = stored_tc + 1;
+                w.overlay.insert(17, other);
+                w.pos_local[0] = stored_tc + 1; w.pos_local[2] = slot as i128;
+                if inc { w.pos_local[1] = now as i128 } else { w.pos_local[3] = now as i128 }
+                nt = true;
+                "ok".into()
+            }
+            // ---- virtual inventory (its own single-cell buffer and counter)
+            ("vbegin", 0) => {
+                if w.vi_open.is_some() { return bad(); }
+                let l = w.vi_loader;
+                match std::panic::catch_unwind(std::panic::AssertUnwindSafe(|| hook::revertible_virtual_inventory(l))) {
+                    Ok(Ok(v)) => { w.vi_open = Some(v); w.vi_overlay = None; nt = true; "ok".into() }
+                    Ok(Err(_)) => "err".into(),
+                    Err(_) => "panic".into(),
+                }
+            }
+            ("vcommit", 0) => {
+                let Some(v) = w.vi_open.take() else { return bad() };
+                v.commit();
+                if let Some(o) = w.vi_overlay.take() { w.vi_committed = o; }
+                nt = true;
+                "ok".into()
+            }
+            ("vabandon", 0) => {
+                let Some(v) = w.vi_open.take() else { return bad() };
+                drop(v);
+                w.vi_overlay = None;
+                "ok".into()
+            }
+            ("vsetrev", 1) => {
+                let Some(v) = t[3].parse::<u64>().ok() else { return bad() };
+                if w.vi_open.is_some() || v < w.vi_rev() { return bad(); }
+                w.vi_ai.data.borrow_mut()[w.vi_rev_off..w.vi_rev_off + 8].copy_from_slice(&v.to_le_bytes());
+                "ok".into()
+            }
+            ("vread", 0) => {
+                let Some(v) = w.vi_open.as_ref() else { return bad() };
+                let p = hook::virtual_inventory_pool(v).expect("vi pool");
+                let got = vec![p.long_amount().unwrap() as i128, p.short_amount().unwrap() as i128];
+                let want = w.vi_overlay.clone().unwrap_or_else(|| w.vi_committed.clone());
+                if got != want { fail = Some(format!("virtual inventory read {:?}, the transactional map has {:?}", got, want)); }
+                format!("ok {} {}", got[0], got[1])
+            }
+            ("vwrite", 2) => {
+                let Some(d) = t[4].parse::<i128>().ok() else { return bad() };
+                let side = match t[3] { "L" => 0usize, "S" => 1, _ => return bad() };
+                let mut cur = w.vi_overlay.clone().unwrap_or_else(|| w.vi_committed.clone());
+                let Some(v) = w.vi_open.as_ref() else { return bad() };
+                let ok = hook::virtual_inventory_apply_delta(v, side == 0, d).expect("vi apply");
+                let exp = u128_ok(cur[side], d);
+                if exp.is_some() != ok { fail = Some(format!("virtual inventory write outcome {ok} but exact arithmetic says {:?}", exp)); }
+                if let Some(n) = exp { cur[side] = n; nt = d != 0; }
+                w.vi_overlay = Some(cur);
+                if ok { "ok".into() } else { "err".into() }
+            }
             _ => return bad(),
         };
-        // THE PROPERTY, after every step: stored state = committed state of the transactional map
+        // ---- THE PROPERTY, after every step: stored state = committed state of the transactional maps
         // (so it changes only on commit, and then by exactly the operation's writes)
         let st = w.stored();
         if st != w.committed && fail.is_none() {
             let k = (0..18).find(|k| st[*k] != w.committed[*k]).unwrap();
             fail = Some(format!("stored cell {k} is {:?} but the committed value is {:?} (after {})", st[k], w.committed[k], t[1]));
+        }
+        if fail.is_none() && w.pos_stored() != w.pos_committed {
+            fail = Some(format!("stored position is {:?} but the committed one is {:?} (after {})", w.pos_stored(), w.pos_committed, t[1]));
+        }
+        if fail.is_none() && w.vi_stored() != w.vi_committed {
+            fail = Some(format!("stored virtual inventory is {:?} but the committed one is {:?} (after {})", w.vi_stored(), w.vi_committed, t[1]));
+        }
+        if fail.is_none() && w.mint_supply() != w.supply {
+            fail = Some(format!("mint supply is {} but the committed supply is {} (after {})", w.mint_supply(), w.supply, t[1]));
+        }
+        // mint/burn CPIs happen at commit only, with exactly the accumulated amounts; one state event per commit
+        let cpis = TOKEN_CPIS.lock().unwrap().clone();
+        if fail.is_none() && cpis != expect_cpis {
+            fail = Some(format!("token CPIs {} but expected {} (after {})", show_cpis(&cpis), show_cpis(&expect_cpis), t[1]));
+        }
+        let ev = *EVENT_CPIS.lock().unwrap();
+        if fail.is_none() && ev != expect_events && !t[1].starts_with('v') {
+            fail = Some(format!("{ev} event CPIs but expected {expect_events} (after {})", t[1]));
         }
         (format!("{head} | {}", w.digest()), fail, nt)
     }
@@ -307,20 +631,65 @@ fn gen(seed: u64, n: u64) -> Vec<String> {
         let s = format!("b{seed}_{sid}");
         let t0: i64 = 1_700_000_000 + r.below(1000) as i64;
         let mut now = t0;
+        let mut slot: u64 = 1000;
         out.push(format!("rbuf new {s} {t0}"));
         let nops = r.range(2, 10);
-        let near_overflow = r.chance(1, 12);
-        if near_overflow { out.push(format!("rbuf setrev {s} {}", u64::MAX - r.range(1, 4))); }
+        if r.chance(1, 12) { out.push(format!("rbuf setrev {s} {}", u64::MAX - r.range(1, 4))); }
+        if r.chance(1, 20) { out.push(format!("rbuf vsetrev {s} {}", u64::MAX - r.range(1, 3))); }
         let mut hot: Vec<u64> = vec![r.below(16), r.below(16), 16, 17];
         let mut abandon_streak = 0;
+        let mut vi_open = false;
+        // some histories write ONLY clocks (a commit must not skip them when nothing else is dirty)
+        let clocks_only = r.chance(1, 8);
         for _ in 0..nops {
-            out.push(format!("rbuf begin {s}"));
+            // the virtual inventory has its own operation, interleaved freely with the market's
+            let vi_step = |r: &mut Rng, out: &mut Vec<String>, vi_open: &mut bool| {
+                if !*vi_open { if r.chance(1, 3) { out.push(format!("rbuf vbegin {s}")); *vi_open = true; } return; }
+                match r.below(6) {
+                    0 => { out.push(format!("rbuf vcommit {s}")); *vi_open = false; }
+                    1 => { out.push(format!("rbuf vabandon {s}")); *vi_open = false; }
+                    2 => out.push(format!("rbuf vread {s}")),
+                    _ => {
+                        let d: i128 = match r.below(4) { 0 => -(r.below(1000) as i128), 1 => 0, _ => r.below(1_000_000) as i128 };
+                        out.push(format!("rbuf vwrite {s} {} {d}", if r.chance(1, 2) { "L" } else { "S" }));
+                        if r.chance(1, 2) { out.push(format!("rbuf vread {s}")); }
+                    }
+                }
+            };
+            vi_step(&mut r, &mut out, &mut vi_open);
+            let mode = if clocks_only { 0 } else { r.below(4) }; // 0,1 market · 2 liquidity · 3 position
+            out.push(format!("rbuf {} {s}", match mode { 2 => "lbegin", 3 => "pbegin", _ => "begin" }));
             // (after a counter overflow `begin` panics; the following ops are `bad-op` on both sides)
             let nacts = if r.chance(1, 6) { 0 } else { r.range(1, 8) };
             for _ in 0..nacts {
+                if r.chance(1, 5) { vi_step(&mut r, &mut out, &mut vi_open); }
+                now += r.below(50) as i64 - 10;
+                slot += r.below(3);
+                if clocks_only {
+                    out.push(if r.chance(2, 3) { format!("rbuf wclock {s} {} {now}", r.below(3)) } else { format!("rbuf rclock {s} {} {now}", r.below(2)) });
+                    continue;
+                }
+                // mode-specific actions
+                if mode == 2 && r.chance(1, 2) {
+                    out.push(match r.below(5) {
+                        0 => format!("rbuf supply {s}"),
+                        1 | 2 => format!("rbuf mint {s} {}", match r.below(6) { 0 => 0u128, 1 => u64::MAX as u128 - r.below(2_000_000) as u128, 2 => 1u128 << 64, _ => r.below(1_000_000) as u128 }),
+                        _ => format!("rbuf burn {s} {}", match r.below(6) { 0 => 0u128, 1 => 1_000_000 + r.below(2_000_000) as u128, 2 => 1u128 << 64, _ => r.below(600_000) as u128 }),
+                    });
+                    if r.chance(1, 3) { out.push(format!("rbuf supply {s}")); }
+                    continue;
+                }
+                if mode == 3 && r.chance(1, 2) {
+                    out.push(match r.below(5) {
+                        0 => format!("rbuf pread {s}"),
+                        1 => format!("rbuf ptouch {s} {} {slot} {now}", if r.chance(1, 2) { "inc" } else { "dec" }),
+                        _ => format!("rbuf pwrite {s} {} {}", r.range(4, 10), r.num(100)),
+                    });
+                    if r.chance(1, 3) { out.push(format!("rbuf pread {s}")); }
+                    continue;
+                }
                 let k = if r.chance(2, 3) { *r.pick(&hot) } else { let k = r.below(18); hot.push(k); k };
                 let write = r.chance(3, 5);
-                now += r.below(50) as i64 - 10;
                 let line = match (k, write) {
                     (0..=15, false) => format!("rbuf rpool {s} {k}"),
                     (0..=15, true) => {
@@ -344,10 +713,15 @@ fn gen(seed: u64, n: u64) -> Vec<String> {
             let abandon = if abandon_streak > 0 { abandon_streak -= 1; true } else if r.chance(1, 8) { abandon_streak = r.range(1, 3); true } else { r.chance(2, 5) };
             out.push(format!("rbuf {} {s}", if abandon { "abandon" } else { "commit" }));
         }
-        // a final operation that only reads every cell: nothing abandoned may be visible
-        out.push(format!("rbuf begin {s}"));
+        if vi_open { out.push(format!("rbuf {} {s}", if r.chance(1, 2) { "vcommit" } else { "vabandon" })); }
+        // a final operation that only reads: nothing abandoned may be visible
+        out.push(format!("rbuf vbegin {s}"));
+        out.push(format!("rbuf vread {s}"));
+        out.push(format!("rbuf vcommit {s}"));
+        out.push(format!("rbuf pbegin {s}"));
         for k in 0..16 { if r.chance(1, 3) { out.push(format!("rbuf rpool {s} {k}")); } }
         out.push(format!("rbuf rother {s}"));
+        out.push(format!("rbuf pread {s}"));
         out.push(format!("rbuf commit {s}"));
     }
     out
@@ -355,7 +729,7 @@ fn gen(seed: u64, n: u64) -> Vec<String> {
 
 fn main() {
     let cli = cli();
-    h_store::install_stubs();
+    set_syscall_stubs(Box::new(Stubs));
     std::panic::set_hook(Box::new(|_| {}));
     let mut out = Out::new();
     let reqs: Vec<String> = if cli.mode == "replay" { read_requests(cli.file.as_deref().unwrap()) } else { gen(cli.seed, cli.n) };
@@ -367,6 +741,7 @@ fn main() {
         out.stat(&format!("op.{op}"));
         let kind = resp.split(" | ").next().unwrap_or("").split(' ').next().unwrap_or("").to_string();
         out.stat(&format!("resp.{kind}"));
+        if resp.starts_with("ok cpis=M") || resp.starts_with("ok cpis=B") { out.stat("commit.with_token_cpi"); }
         if let Some(what) = fail { out.oracle_fail(&what, &req); } else if resp != "bad-op" { out.stat("oracle.checked"); }
         out.case_nt(&req, &resp, nt);
     }
